@@ -52,6 +52,8 @@ APPLY = {
 }
 
 
+META["explanation"] += " " + '(SIGN-kind) every read of Value.Number.Integer that is an operand of < <= > >= or converted to double sits where the kind of its owner cannot be NaturalNumber (a switch arm without that label, or a dominating Type test); in const members the mirror clause holds for Number.Natural converted to double and IntegerNumber. (ZERO-after) after `while (v != 0)` without a break, v is not tested (comparison or & mask) before it is assigned again.'
+
 def doc_groups():
     p = os.path.join(REPO, "Documentation", "Template.md")
     if not os.path.exists(p):
@@ -221,6 +223,8 @@ def run(ctx):
     # ---------------- TS-expr
     rules.append(rule_expr_kind(ctx, m))
     rules.append(rule_signed_read(ctx, m))
+    from rules.common import rule_after_countdown
+    rules.append(rule_after_countdown(ctx, m, ["QExpression.hpp", "Template.hpp", "Digit.hpp", "BigInt.hpp"]))
 
     # ---------------- PR-spanstart
     rules.append(rule_span_start(ctx, m))
@@ -868,8 +872,9 @@ def rule_signed_read(ctx, m):
         reads = []
         for x in f.walk():
             n = f.nodes[x]
-            if n["k"] != "MemberExpr" or n.get("n") != "Integer":
+            if n["k"] != "MemberExpr" or n.get("n") not in ("Integer", "Natural"):
                 continue
+            member = n["n"]
             # owner
             b = x
             while f.nodes[b]["k"] == "MemberExpr" and f.nodes[b].get("ch"):
@@ -898,14 +903,20 @@ def rule_signed_read(ctx, m):
                         how = "sign test"
                     break
                 break
-            if how:
-                reads.append((x, owner, how))
+            if how and (member == "Integer" or (how == "converted to double" and f.is_const)):
+                # Natural: only in const members -- the members that change the number (operator^= works on the magnitude it
+                # has just made non-negative) read their own intermediate results, not a value of a settled kind
+                # (the unsigned reading is ordered on purpose once the negative cases are gone; its conversion to double is
+                # what differs for a negative integer)
+                reads.append((x, owner, how, member))
         if not reads:
             continue
         ctx.note_fn(f)
         type_text = lambda o: "Type" if o == "this" else o + ".Type"
-        for x, owner, how in reads:
+        for x, owner, how, member in reads:
             ok, why = False, ""
+            forbidden = "NaturalNumber" if member == "Integer" else "IntegerNumber"
+            same = "IntegerNumber" if member == "Integer" else "NaturalNumber"
             # enclosing switch arms
             up = par.get(x)
             chain = []
@@ -918,7 +929,7 @@ def rule_signed_read(ctx, m):
                 for labels, stmts in astq.switch_arms(f, sw):
                     if any(x in set(f.walk(s_)) for s_ in stmts):
                         names = [(l[0] or "").split("::")[-1] for l in labels]
-                        if names and "default" not in names and "NaturalNumber" not in names:
+                        if names and "default" not in names and forbidden not in names:
                             ok, why = True, "inside case %s of switch (%s)" % ("/".join(names), type_text(owner))
             if not ok:
                 for i in f.walk():
@@ -930,12 +941,14 @@ def rule_signed_read(ctx, m):
                         continue
                     k = f.text(cn["ch"][1]).split("::")[-1]
                     want = None
-                    if cn["op"] == "==" and k in ("IntegerNumber", "RealNumber"):
+                    if cn["op"] == "==" and k in (same, "RealNumber"):
                         want = True
-                    elif cn["op"] == "==" and k == "NaturalNumber":
+                    elif cn["op"] == "==" and k == forbidden:
                         want = False
-                    elif cn["op"] == "!=" and k == "NaturalNumber":
+                    elif cn["op"] == "!=" and k == forbidden:
                         want = True
+                    elif cn["op"] == "!=" and k in (same, "RealNumber"):
+                        want = False
                     if want is None:
                         continue
                     try:
@@ -947,7 +960,9 @@ def rule_signed_read(ctx, m):
             if how == "sign test" and not ok:
                 # asking a natural for its sign is the same slip
                 pass
-            r.ob(f.sig, "%s.Value.Number.Integer %s" % (owner, how), ok, why if ok else
-                 "`%s` reads Number.Integer (%s) where %s may be a NaturalNumber: a natural of 2^63 or more is taken for a negative number "
-                 "(18446744073709551615 > 1 is false)" % (f.text(par.get(x, x))[:50], how, "this object" if owner == "this" else owner), f.loc(x))
+            r.ob(f.sig, "%s.Value.Number.%s %s" % (owner, member, how), ok, why if ok else
+                 ("`%s` reads Number.Integer (%s) where %s may be a NaturalNumber: a natural of 2^63 or more is taken for a negative number "
+                  "(18446744073709551615 > 1 is false)" if member == "Integer" else
+                  "`%s` reads Number.Natural (%s) where %s may be an IntegerNumber: a negative integer is taken for a natural near 2^64 (-3 == -3.0 is false)")
+                 % (f.text(par.get(x, x))[:50], how, "this object" if owner == "this" else owner), f.loc(x))
     return r
